@@ -329,9 +329,8 @@ class FWStub:
         return SB(z3.Bool(self.c.fresh_name("same_best_point")))
 
     def merit(self, x, fun_val=None, cub_val=None, ceq_val=None):
-        if fun_val is None or cub_val is None or ceq_val is None:
-            self.c.oblige("C06.minimize.merit_called_with_values", z3.BoolVal(False), props=["C06"],
-                          note="TrustRegion.merit called without values would evaluate the problem behind the scenes")
+        self.c.oblige("C06.minimize.merit_called_with_values", z3.BoolVal(not (fun_val is None or cub_val is None or ceq_val is None)),
+                      props=["C06"], note="TrustRegion.merit called without values would evaluate the problem behind the scenes")
         return SF.fresh("merit", finite=True)
 
     def get_second_order_correction_step(self, step, options): return Vec("soc")
@@ -751,10 +750,10 @@ class ModelsInitUnit(Unit):
                 v.k = it(k)
                 return v
 
-        def quad(interpolation, values, debug):
-            if c.choose("Quadratic", 2, ["ok", "linalg"]):
-                raise np.linalg.LinAlgError
-            return object()
+        class quad:
+            def __init__(self, interpolation, values, debug):
+                if c.choose("Quadratic", 2, ["ok", "linalg"]):
+                    raise np.linalg.LinAlgError
         m.__dict__["Interpolation"] = Interp
         m.__dict__["Quadratic"] = quad
         penalty = SF.fresh("penalty", nonan=True)
@@ -792,7 +791,7 @@ class ModelsInitUnit(Unit):
 
 class TrustRegionInitUnit(Unit):
     name = "framework.trust_region_init"
-    props = ("C05", "C07", "C09", "C06", "C18")
+    props = ("C07", "C09", "C18", "C20", "C03")
     fmodel = "ORDER"
     functions = [("cobyqa.framework", "TrustRegion.__init__")]
 
